@@ -58,8 +58,44 @@ def _behaviours(ctx, tmp, transport, cfg, num, seed):
     return out
 
 
+def _replay(ctx):
+    from harness import c06_driver as D
+    rep = json.load(open(ctx.replay)).get("replay") or {}
+    rec = rep.get("record", rep)
+    ctx.rule = "replay of one stored action sequence on the tree under test"
+    acts = rec.get("actions") or []
+    parsed = [(a, b) for a, b in (_parse_actions([x])[0] if _parse_actions([x]) else (None, None) for x in acts) if a] if acts and isinstance(acts[0], str) \
+        else [tuple(a) for a in acts]
+    t = str(rec.get("id", "COAP")).split("-")[0]
+    t = t if t in ("IP", "BLE", "COAP") else "COAP"
+    loop = asyncio.new_event_loop()
+    asyncio.set_event_loop(loop)
+    try:
+        r = loop.run_until_complete(D.drive(t, random.Random(ctx.seed), parsed))
+        fresh = {"id": rec.get("id", "replay"), "events": r.events}
+        ctx.case(json.dumps(r.events))
+        ctx.sample({"replayed_events": r.events[:30]})
+        for pr in r.problems:
+            ctx.violation(f"{t}: {pr}", fresh)
+        cfg = {"IP": "SessionCounters_Trace_IP.cfg", "BLE": "SessionCounters_Trace_BLE.cfg", "COAP": "SessionCounters_Trace_COAP_forward.cfg"}[t]
+        rej = tracecheck.validate(ctx, "session/SessionCounters_Trace", cfg, [fresh], label="replay")
+        if rej and t == "COAP":
+            rej2 = tracecheck.validate(ctx, "session/SessionCounters_Trace", "SessionCounters_Trace_COAP_all.cfg", [fresh], label="replay with deviations")
+            if not rej2:
+                for s in (SIG_REWIND, SIG_RESET):
+                    ctx.violation("replayed CoAP execution is only explained by a resynchronisation deviation", fresh, signature=s)
+                rej = []
+        for j in rej:
+            ctx.violation(f"replayed execution is not a behaviour of SessionCounters: event #{j['maxl']} {j['event']}", fresh)
+    finally:
+        loop.close()
+        asyncio.set_event_loop(None)
+
+
 def run(ctx):
     from harness import c06_driver as D
+    if ctx.replay:
+        return _replay(ctx)
     ctx.rule = ("action sequences over {request n, accessory produces, deliver genuine k (next / replay / future), corrupted, "
                 "abandon, re-key, CoAP events}; TLC explores them to a depth bound per transport; executions of the real layers "
                 "are TLC behaviours + seeded random histories; distinct by recorded event sequence; non-trivial if >= 1 delivery")
